@@ -14,8 +14,8 @@ MANIFEST_ENTRY = {
           "interpreter / checker is sound (an accepted assignment is a typing); in a typed program every reachable machine "
           "configuration carries exactly the typed depths (no underflow, never stuck), a run that ends leaves operand stack, "
           "value stack and frame chain at their initial depths, and a pc - in particular a reapply loop head - is reached at the "
-          "same depth at every iteration; for all 73^3 token triples and all sequences of length <= 5 over the reduced alphabet "
-          "every accepted program outside the listed finding classes (and without bare `;;`) is typable; machine-checked "
+          "same depth at every iteration; for all 73^3 token triples, all sequences of length <= 5 over the reduced alphabet and all "
+          "sequences of length 7 over a ten-token alphabet every accepted program outside the listed finding classes (and without bare `;;`) is typable; machine-checked "
           "witnesses show each excluded class is untypable. The inductive static theorem over all trees is stated, not proved: "
           "proof (partial). On every run the depth harness builds each program on both data implementations and executes it "
           "step by step; every observed step must be a move of the abstract machine, the observed depths must equal the typed "
